@@ -129,6 +129,37 @@ CLAIMED = {
             "start/middle/finished/pc-outside states, and by the session correspondence) and parser completeness "
             "(rendering oracle: parse(render t) = t, print :d vs independent arithmetic).",
             "trusted: Model/MiniParser.v, Spec/ExprGrammar.v, Spec/ExprSpec.v, the real lexer (tokens handed to the model)"),
+    "C07": ("PARTIAL proof. Coq theorems on hand models tied to the code by correspondence: the lexer (Model/Lexer.v, which "
+            "records a read past the end of the text instead of excluding it) never reads past the end, consumes at least "
+            "one character per token and produces EOF after at most n+1 tokens, for every text; conditional compilation "
+            "is a total line-preserving function; include processing terminates on every include graph (the stack of "
+            "files being parsed never repeats a file). NOT theorems: the parser's error recovery, type checking and "
+            "preprocessing of ill-formed operations — decided by the survival oracle (no uncaught exception, no timeout) "
+            "over generated, mutated and truncated texts in all four modes.",
+            "trusted: Model/Lexer.v (ASCII), Model/Ifdef.v, Model/Include.v; survival oracle for the rest"),
+    "C10": ("PARTIAL proof. Coq theorem: what the printer writes for a string operand (Model/Printer.v, hand model of "
+            "op.string_literal) is read back by the lexer (Model/Lexer.v) as exactly that string, for every string of "
+            "characters, in any following context, with no warning (induction over the string, all escape forms); the "
+            "OPCODE words of --obfuscate are the C05 codec theorems. NOT theorems: integer/register/symbol printing, the "
+            "listing format and the whole-program fixed point — decided by the round-trip oracle on the real tool "
+            "(listing fed back: accepted, identical listing, identical assembled words; --obfuscate: identical words).",
+            "trusted: Model/Printer.v, Model/Lexer.v; round-trip oracle"),
+    "C16": ("PARTIAL proof. Coq theorems: for every well-nested conditional structure (any depth, #ifdef/#ifndef, with or "
+            "without #else, arbitrary text in discarded regions) the keep-stack machine of evaluate_ifdefs (Model/Ifdef.v, "
+            "line-level) outputs exactly what a C preprocessor with only HERA_PY defined keeps, compositionally inside any "
+            "context; include processing (Model/Include.v, abstract) terminates on every include graph, reports an include "
+            "of a file that is being parsed at that directive and goes on, and splices any other file in place whether or "
+            "not it was included before. NOT theorems: path resolution (dirname/join/realpath), read errors, attribution of "
+            "diagnostics to the included file — decided by the include oracle on generated directory trees (nested "
+            "directories, diamonds, cycles of any length, ./ and ../ spellings, missing files).",
+            "trusted: Model/Ifdef.v, Model/Include.v, Spec/CondSpec.v; include oracle"),
+    "C17": ("PARTIAL proof. Coq theorems: the line and column recorded in every token are those of its first character "
+            "(1 + newlines before it, 1 + characters since the last newline), for every text — comments, tabs, multi-line "
+            "constructs included (every lexer state is the text advanced by k <= n characters); conditional compilation "
+            "keeps every surviving line unchanged at its line number. NOT theorems: which token each diagnostic is attached "
+            "to, the quoted line and caret, attribution inside included files, run-time warnings — decided by the "
+            "planted-fault oracle (13 fault kinds x random layout).",
+            "trusted: Model/Lexer.v, Model/Ifdef.v; planted-fault oracle"),
 }
 
 checks = []
